@@ -57,6 +57,12 @@ class Holder:
         new_dict["population"] = population
         new_dict["simulation"] = population.simulation
 
+        # The clone gets its own in-memory storage, holding the same arrays.
+        memory_storage = storage.InMemoryStorage(is_eternal=self._eternal)
+        for period in self._memory_storage.get_known_periods():
+            memory_storage.put(self._memory_storage.get(period), period)
+        new_dict["_memory_storage"] = memory_storage
+
         return new
 
     def create_disk_storage(self, directory=None, preserve=False):
